@@ -32,6 +32,9 @@ HOW = {
     "C03-m7": "after adding A[cdecay-multi]: several CDecay statements in one file, one of them without a source and sorting first",
     "C03-m8": "after adding A[cdecay-multi]: two names defined by both Decay and CDecay that are adjacent in sorted order",
     "C17-m7": "after adding an earlier read in the same process (class-level particle sets not reset between the two reads)",
+    "C04-m9": "after also conjugating the wrapped label of an unknown name (it is wrapped again, whatever was asked before)",
+    "C13-m10": "after adding in-place edits of the top-level final state through pop / clear+update / setdefault / popitem and rendering again",
+    "C18-m10": "after adding two amplitudes with three identical final-state particles (6 orderings) to the emit family",
     "C09-m8": "after adding the re-parse history (same parser parsed before with the other include_ccdecays setting and queried)",
 }
 rows = []
@@ -55,7 +58,7 @@ out = ["Seeds: `-mN` written by independent sub-agents that saw only the propert
        "`tools/verify_seed.sh`: demo passes on the clean tree, fails with the patch, 282 tests still pass); `-aN` written by me from the changes",
        "the property texts report as surviving the suite; `-prefixFn` the reverse of my own fix commits. Every row was produced by",
        "`tools/seed_matrix.sh` (quick tier, scratch copy of /repo). *how* says whether the check caught the change as it stood when the change",
-       "arrived (\"first\") or what had to be added after a miss - 85 of the 116 sub-agent changes were caught at first try; the misses are the reason for the session-history dimension, the boundary values (zero, None, empty) and the symbolic-value harnesses.", "",
+       "arrived (\"first\") or what had to be added after a miss - 98 of the 132 sub-agent changes were caught at first try; the misses are the reason for the session-history dimension, the boundary values (zero, None, empty) and the symbolic-value harnesses.", "",
        "| seed | origin | change | caught by (first obligation that fails) | how |", "|---|---|---|---|---|"]
 for r in rows:
     out.append("| " + " | ".join(r) + " |")
